@@ -18,6 +18,8 @@ import PsutilModel.Proofs.C16Owner
 import PsutilModel.Proofs.C16Locks
 import PsutilModel.Proofs.C16Reads
 import PsutilModel.Model.C16Gen
+import PsutilModel.Proofs.C16Rec
+import PsutilModel.Model.C16RecGen
 namespace Psutil.C16
 open Spec
 
@@ -957,3 +959,104 @@ example : ∃ s, Reach (fun t => if t = 0 then [7, 9] else if t = 1 then [9, 7] 
   ⟨_, Reach.step (Reach.step Reach.init (Step.acquire 0 7 [9] rfl rfl rfl)) (Step.acquire 1 9 [7] rfl rfl rfl), rfl, rfl⟩
 
 end Psutil.C16.Locks
+
+/- =========================================================================================
+   Part 5 — records are objects: the dict a memoised helper returns is shared by every consumer of the block
+   (Model/C16Rec.lean, Spec/C16Rec.lean, Proofs/C16Rec.lean). Kernel records with an independent value in every
+   position, every public route to the record (with and without the front-end memoisation), every order of calls.
+   ========================================================================================= -/
+namespace Psutil.C16.Rec
+open RSpec
+
+/-- obligation on the translator's facts (`helperReturns`, `statParse`, `recConsumers`, `recRoutes`): every row was
+    understood, the only mutable object handed out by a memoised helper is the dict of `stat`, every public route ends
+    in a described platform method, and no platform method changes the dict it is handed (no pop / del / item store /
+    clear, nothing the translator cannot name) -/
+theorem rcfg_good : rcfgGood = true := by decide
+
+theorem rcfg_pure : rcfg.Pure := by
+  intro x hx u hu
+  have h := rcfg_good
+  simp only [rcfgGood, Bool.and_eq_true] at h
+  exact List.all_eq_true.mp (List.all_eq_true.mp h.2 x hx) u hu
+
+/-- Clause 1 at the level of record fields, for EVERY history (enter, exit normally or by exception, nested blocks,
+    any public route in any order, the kernel publishing new records of any content and length) and ANY configuration
+    whose consumers leave the record as it was: inside a block every method returns what it would return outside the
+    block on the record that was current when the source was first read in that block, whatever other methods ran
+    before it; after the outermost exit the answers are fresh. -/
+theorem C16_record_answers_at_first_read (c : RCfg) (hp : c.Pure) (l0 : Line) (ops : List Op)
+    (h0 : lineOK c l0) (hops : ∀ op ∈ ops, opOK c op) :
+    outs c ⟨St.init, l0⟩ ops = outsR c ⟨SSt.init, l0⟩ ops :=
+  outs_eq c hp ops St.init SSt.init l0 (rel_init c) h0 hops
+
+/-- … for the code as it is -/
+theorem C16_record_answers_at_first_read_current (l0 : Line) (ops : List Op)
+    (h0 : lineOK rcfg l0) (hops : ∀ op ∈ ops, opOK rcfg op) :
+    outs rcfg ⟨St.init, l0⟩ ops = outsR rcfg ⟨SSt.init, l0⟩ ops :=
+  C16_record_answers_at_first_read rcfg rcfg_pure l0 ops h0 hops
+
+/-- spelled out for two calls: in a block, method B called after ANY method A answers exactly what B answers outside
+    the block on the same kernel record (A = cpu_percent, B = cpu_times is the pair that reaches one platform method
+    twice) -/
+theorem C16_record_call_after_any_call (l : Line) (hl : lineOK rcfg l) (i j : Nat) (ri rj : Route)
+    (hi : rcfg.routes[i]? = some ri) (hj : rcfg.routes[j]? = some rj) :
+    outs rcfg ⟨St.init, l⟩ [.enter, .call i, .call j]
+      = [.unit, .ret (outside rcfg ri l), .ret (outside rcfg rj l)] := by
+  rw [C16_record_answers_at_first_read_current l _ hl (by
+    intro op hop
+    simp only [List.mem_cons, List.not_mem_nil, or_false] at hop
+    rcases hop with rfl | rfl | rfl <;> trivial)]
+  simp [outsR, stepS, callS, enterS, SSt.init, hi, hj]
+
+/-- the full statement for a configuration -/
+def C16_record_Statement (c : RCfg) : Prop :=
+  ∀ (l0 : Line) (ops : List Op), lineOK c l0 → (∀ op ∈ ops, opOK c op) →
+    outs c ⟨St.init, l0⟩ ops = outsR c ⟨SSt.init, l0⟩ ops
+
+/-- what-if configurations: one consumer takes a key out of the dict it is handed (`values.pop(k, 0)`), or overwrites
+    an entry in place -/
+def cfgPop : RCfg :=
+  { fields := [⟨"utime", 1, .fail⟩, ⟨"blkio_ticks", 2, .dflt 0⟩]
+    consumers := [⟨"cpu_times", [.read "utime", .takeOr "blkio_ticks" 0]⟩]
+    routes := [⟨"cpu_percent", "cpu_times", false⟩, ⟨"cpu_times", "cpu_times", true⟩] }
+
+def cfgPut : RCfg := { cfgPop with consumers := [⟨"cpu_times", [.read "utime", .read "blkio_ticks", .put "utime" 0]⟩] }
+
+/-- a consumer that mutates the shared dict breaks the clause: `enter; cpu_percent(); cpu_times()` on a record
+    with a non-zero delayacct_blkio_ticks reports iowait 0 (pop), resp. utime 0 (in-place store) -/
+theorem C16_record_mutating_consumer_counterexample :
+    ¬ C16_record_Statement cfgPop ∧ ¬ C16_record_Statement cfgPut := by
+  have hops : ∀ (c : RCfg), ∀ op ∈ [Op.enter, Op.call 0, Op.call 1], opOK c op := by
+    intro c op hop
+    simp only [List.mem_cons, List.not_mem_nil, or_false] at hop
+    rcases hop with rfl | rfl | rfl <;> trivial
+  constructor
+  · intro h
+    have := h [7, 5, 9] [.enter, .call 0, .call 1] (by decide) (hops _)
+    revert this
+    decide
+  · intro h
+    have := h [7, 5, 9] [.enter, .call 0, .call 1] (by decide) (hops _)
+    revert this
+    decide
+
+/-- non-vacuity: on the generated configuration a full-length kernel record parses -/
+example : lineOK rcfg (List.range 53) := by decide
+
+/-- today's shape of the two routes to `_proc.cpu_times()` (read-only consumer), written out by hand -/
+def cfgAsIs : RCfg := { cfgPop with consumers := [⟨"cpu_times", [.read "utime", .read "blkio_ticks"]⟩] }
+
+/-- non-vacuity: cpu_percent() then cpu_times() in one block report the record first read in the block (iowait 9), also
+    after the kernel published a new record; after the exit by exception the answer is fresh -/
+example : outs cfgAsIs ⟨St.init, [7, 5, 9]⟩
+      [.enter, .call 0, .call 1, .setLine [1, 2, 3], .call 1, .call 0, .exit true, .call 1]
+    = [.unit, .ret (.ok [("utime", 5), ("blkio_ticks", 9)]), .ret (.ok [("utime", 5), ("blkio_ticks", 9)]), .unit,
+       .ret (.ok [("utime", 5), ("blkio_ticks", 9)]), .ret (.ok [("utime", 5), ("blkio_ticks", 9)]), .unit,
+       .ret (.ok [("utime", 2), ("blkio_ticks", 3)])] := by decide
+
+/-- … and with the popping consumer the second answer of the block has lost its iowait -/
+example : outs cfgPop ⟨St.init, [7, 5, 9]⟩ [.enter, .call 0, .call 1]
+    = [.unit, .ret (.ok [("utime", 5), ("blkio_ticks", 9)]), .ret (.ok [("utime", 5), ("blkio_ticks", 0)])] := by decide
+
+end Psutil.C16.Rec
